@@ -218,7 +218,7 @@ def run(prop, args, seed, t0):
     # ---- bounded stand-ins for the unverified remainder of the property --------------------------
     if not args.unit:
         for si in STANDINS.get(prop, []):
-            res = native("replay_native.py", {"mirror": si["mirror"], "model": {}, "extra": dict(si, bounded=True)}, timeout=600)
+            res = native("replay_native.py", {"mirror": si["mirror"], "model": {}, "extra": dict(si, bounded=True, tier=args.tier)}, timeout=600 if args.tier == "quick" else 3000)
             bounded_runs.append({"standin": si, "result": res})
             if res.get("confirmed") is True:
                 os.makedirs(os.path.join(HERE, "replay", prop), exist_ok=True)
